@@ -29,6 +29,7 @@ import (
 	"fmt"
 	"reflect"
 	"regexp"
+	"runtime"
 	"sort"
 	"strconv"
 	"strings"
@@ -533,9 +534,160 @@ type c11Case struct {
 	ovs      []c11Ov
 	plural   bool // WithoutGlobals(names...) instead of one WithoutGlobal each
 	kind     string
+	// seq != nil: the configuration is given as an explicit SEQUENCE of options; style, host,
+	// denies and ovs are derived from it (prepareSeq) and the Lean model folds the sequence
+	seq []c11Opt
+	// later > 0 (style A): that many further Configs are built after this one and BEFORE its
+	// object graph is walked and its access scripts are evaluated
+	later int
+}
+
+// c11Opt is one option of a sequence.
+type c11Opt struct {
+	kind   byte // 'g' WithGlobal(s), 'd' WithoutGlobal(s), 'o' WithGlobalOverride, 'n' WithoutDefaultGlobals
+	name   string
+	val    object.Object
+	plural bool // spelled with the plural form (WithGlobals{…} / WithoutGlobals(…)); adjacent plural options of one kind share one call
+}
+
+func (o c11Opt) text() string {
+	p := ""
+	if o.plural {
+		p = "s"
+	}
+	switch o.kind {
+	case 'g':
+		return fmt.Sprintf("WithGlobal%s(%s:=%s)", p, o.name, o.val.Type())
+	case 'd':
+		return fmt.Sprintf("WithoutGlobal%s(%s)", p, o.name)
+	case 'o':
+		return fmt.Sprintf("WithGlobalOverride(%s:=%s)", o.name, o.val.Type())
+	}
+	return "WithoutDefaultGlobals"
+}
+
+func c11SeqText(seq []c11Opt) string {
+	parts := make([]string, len(seq))
+	for i, o := range seq {
+		parts[i] = o.text()
+	}
+	return "[" + strings.Join(parts, " ") + "]"
+}
+
+// c11SeqOptions spells the sequence with the real option constructors, in order.
+func c11SeqOptions(seq []c11Opt) []risor.Option {
+	var opts []risor.Option
+	var gm map[string]any
+	var dn []string
+	flush := func() {
+		if gm != nil {
+			opts = append(opts, risor.WithGlobals(gm))
+			gm = nil
+		}
+		if dn != nil {
+			opts = append(opts, risor.WithoutGlobals(dn...))
+			dn = nil
+		}
+	}
+	for _, o := range seq {
+		switch o.kind {
+		case 'g':
+			if o.plural && gm != nil {
+				if _, dup := gm[o.name]; !dup {
+					gm[o.name] = o.val
+					continue
+				}
+			}
+			flush()
+			if o.plural {
+				gm = map[string]any{o.name: o.val}
+			} else {
+				opts = append(opts, risor.WithGlobal(o.name, o.val))
+			}
+		case 'd':
+			if o.plural && dn != nil {
+				dn = append(dn, o.name)
+				continue
+			}
+			flush()
+			if o.plural {
+				dn = []string{o.name}
+			} else {
+				opts = append(opts, risor.WithoutGlobal(o.name))
+			}
+		case 'o':
+			flush()
+			opts = append(opts, risor.WithGlobalOverride(o.name, o.val))
+		default:
+			flush()
+			opts = append(opts, risor.WithoutDefaultGlobals())
+		}
+	}
+	flush()
+	if len(opts) == 0 {
+		opts = append(opts, risor.WithGlobals(map[string]any{}))
+	}
+	return opts
+}
+
+func c11SeqEncode(seq []c11Opt, ids *c11Ids) string {
+	if len(seq) == 0 {
+		return "-"
+	}
+	parts := make([]string, len(seq))
+	for i, o := range seq {
+		switch o.kind {
+		case 'g', 'o':
+			id, _ := ids.idOf(o.val)
+			parts[i] = string(o.kind) + ";" + c11Name(o.name) + ";" + strconv.Itoa(id)
+		case 'd':
+			parts[i] = "d;" + c11Name(o.name)
+		default:
+			parts[i] = "n"
+		}
+	}
+	return strings.Join(parts, ",")
+}
+
+// prepareSeq derives the fields the rest of runCase works with: the style, the host globals
+// the options leave in cfg.globals, the set of denied names and the overrides in force (both in
+// order of first occurrence, as Risor.C11.applyOpts keeps them; askConfig cross-checks this
+// against the Lean fold).
+func (c *c11Case) prepareSeq() {
+	c.style = "A"
+	c.host = map[string]object.Object{}
+	c.denies, c.ovs = nil, nil
+	ovAt := map[string]int{}
+	for _, o := range c.seq {
+		switch o.kind {
+		case 'n':
+			c.style = "W"
+		case 'g':
+			c.host[o.name] = o.val
+		case 'd':
+			if !c11Contains(c.denies, o.name) {
+				c.denies = append(c.denies, o.name)
+			}
+		case 'o':
+			if i, ok := ovAt[o.name]; ok {
+				c.ovs[i].val = o.val
+			} else {
+				ovAt[o.name] = len(c.ovs)
+				c.ovs = append(c.ovs, c11Ov{o.name, o.val})
+			}
+		}
+	}
+	c.hostDesc = "(from the sequence)"
 }
 
 func (c *c11Case) key() string {
+	if c.seq != nil {
+		l := ""
+		if c.later > 0 {
+			l = fmt.Sprintf(" then %d more Config(s) built", c.later)
+		}
+		return "options=" + c11SeqText(c.seq) + l
+	}
 	d := append([]string{}, c.denies...)
 	sort.Strings(d)
 	var o []string
@@ -543,7 +695,11 @@ func (c *c11Case) key() string {
 		o = append(o, x.name+":="+string(x.val.Type()))
 	}
 	sort.Strings(o)
-	return fmt.Sprintf("style=%s host=%s deny=%q override=%q", c.style, c.hostDesc, d, o)
+	l := ""
+	if c.later > 0 {
+		l = fmt.Sprintf(" then %d more Config(s) built", c.later)
+	}
+	return fmt.Sprintf("style=%s host=%s deny=%q override=%q%s", c.style, c.hostDesc, d, o, l)
 }
 
 type c11Access struct {
@@ -630,6 +786,7 @@ type c11Run struct {
 	refGlob  map[string]int
 	refFP    map[string]int // fingerprint -> number of identity-bearing reference objects carrying it
 	nCases   int
+	curIDs   *c11Ids // identity table of the case being run (option values are numbered in it)
 }
 
 func (r *c11Run) universeFor(c *c11Case) []string {
@@ -669,6 +826,9 @@ func c11Noop(name string) *object.Builtin {
 }
 
 func (r *c11Run) options(c *c11Case, base map[string]any) []risor.Option {
+	if c.seq != nil {
+		return c11SeqOptions(c.seq)
+	}
 	var opts []risor.Option
 	if c.style != "A" {
 		opts = append(opts, risor.WithoutDefaultGlobals())
@@ -706,7 +866,7 @@ type c11Reply struct {
 
 func c11ParseReply(s string) c11Reply {
 	f := strings.Split(s, "\t")
-	if len(f) != 7 || f[0] != "ok" {
+	if (len(f) != 7 && len(f) != 8) || f[0] != "ok" {
 		return c11Reply{raw: s}
 	}
 	rp := c11Reply{ok: true, raw: s, globals: c11ParseTable(f[1]), mods: c11ParseMods(f[2]), same: f[6] == "1"}
@@ -727,6 +887,9 @@ func c11ParseReply(s string) c11Reply {
 }
 
 func (r *c11Run) askConfig(c *c11Case, en *c11Env, hostT, dfltT map[string]int, ovIDs []int, accs []*c11Access, rev bool) c11Reply {
+	if c.seq != nil {
+		return r.askSeq(c, en, dfltT, accs, rev)
+	}
 	without := "1"
 	if c.style == "A" {
 		without = "0"
@@ -791,6 +954,63 @@ func (r *c11Run) askConfig(c *c11Case, en *c11Env, hostT, dfltT map[string]int, 
 		for _, o := range c.ovs {
 			rp.ovs = append(rp.ovs, oi[o.name])
 		}
+	}
+	return rp
+}
+
+// askSeq: the option sequence itself goes to the oracle (Risor.C11.applyOpts / initFrom).
+func (r *c11Run) askSeq(c *c11Case, en *c11Env, dfltT map[string]int, accs []*c11Access, rev bool) c11Reply {
+	as := make([]string, len(accs))
+	for i, a := range accs {
+		as[i] = a.encode()
+	}
+	ja := "-"
+	if len(as) > 0 {
+		ja = strings.Join(as, ",")
+	}
+	dflt := "-"
+	if c.style == "A" {
+		dflt = c11Table(dfltT)
+	}
+	rb := "0"
+	if rev {
+		rb = "1"
+	}
+	rp := c11ParseReply(r.e.O.Ask("C11", "optcfg", dflt, en.encodeMods(), en.encodeBack(), c11SeqEncode(c.seq, en.ids), rb, ja))
+	if !rp.ok {
+		return rp
+	}
+	// items are `name:fields…`; bring them into the order of c.denies / c.ovs
+	di := map[string][]string{}
+	for _, f := range rp.denies {
+		di[c11ParseName(f[0])] = f[1:]
+	}
+	oi := map[string][]string{}
+	for _, f := range rp.ovs {
+		oi[c11ParseName(f[0])] = f[1:]
+	}
+	if len(di) != len(c.denies) || len(oi) != len(c.ovs) {
+		rp.ok = false
+		rp.raw = fmt.Sprintf("Lean fold: %d denied names, %d overrides; harness fold: %d, %d", len(di), len(oi), len(c.denies), len(c.ovs))
+		return rp
+	}
+	rp.denies = rp.denies[:0]
+	for _, d := range c.denies {
+		if _, ok := di[d]; !ok {
+			rp.ok = false
+			rp.raw = "Lean fold has no denylist entry " + d
+			return rp
+		}
+		rp.denies = append(rp.denies, di[d])
+	}
+	rp.ovs = rp.ovs[:0]
+	for _, o := range c.ovs {
+		if _, ok := oi[o.name]; !ok {
+			rp.ok = false
+			rp.raw = "Lean fold has no override entry " + o.name
+			return rp
+		}
+		rp.ovs = append(rp.ovs, oi[o.name])
 	}
 	return rp
 }
@@ -989,7 +1209,18 @@ func (r *c11Run) genAccesses(c *c11Case, en *c11Env, pre map[string]int, rng *RN
 func (r *c11Run) runCase(c *c11Case, rng *RNG) {
 	e := r.e
 	r.nCases++
+	if c.seq != nil {
+		c.prepareSeq()
+		e.R.H("seq_len", strconv.Itoa(len(c.seq)))
+		for _, o := range c.seq {
+			e.R.H("seq_option", o.text()[:strings.IndexAny(o.text()+"(", "(")])
+		}
+	}
+	if c.style != "A" {
+		c.later = 0
+	}
 	key := c.key()
+	e.R.H("later_configs", strconv.Itoa(c.later))
 	e.R.H("style", c.style)
 	e.R.H("kind", c.kind)
 	e.R.H("n_denies", strconv.Itoa(len(c.denies)))
@@ -1013,6 +1244,11 @@ func (r *c11Run) runCase(c *c11Case, rng *RNG) {
 	}
 	for _, o := range c.ovs {
 		hostObjs = append(hostObjs, o.val)
+	}
+	for _, o := range c.seq {
+		if o.val != nil {
+			hostObjs = append(hostObjs, o.val) // every value the sequence mentions, also superseded ones
+		}
 	}
 	if c.style == "A" {
 		en = &c11Env{ids: r.ref.ids.clone(), universe: universe}
@@ -1051,6 +1287,7 @@ func (r *c11Run) runCase(c *c11Case, rng *RNG) {
 	if len(en.missing) > 0 {
 		e.R.Mismatch(key, strings.Join(en.missing[:min(len(en.missing), 8)], ","), "every module attribute key is in the regenerated universe", "attribute-name universe is incomplete")
 	}
+	r.curIDs = en.ids
 	ovIDs := make([]int, len(c.ovs))
 	for i, o := range c.ovs {
 		ovIDs[i], _ = en.ids.idOf(o.val)
@@ -1093,6 +1330,14 @@ func (r *c11Run) runCase(c *c11Case, rng *RNG) {
 	}
 	cfg := risor.NewConfig(opts...)
 	real := cfg.Globals()
+	// further Configs built after this one (kept alive to the end of the case)
+	var later []*risor.Config
+	for i := 0; i < c.later; i++ {
+		lc := risor.NewConfig(c11LaterOpts(rng, i)...)
+		lc.Globals()
+		later = append(later, lc)
+	}
+	defer runtime.KeepAlive(later)
 
 	// translation of real objects into model ids
 	local := map[c11Key]int{}
@@ -1130,6 +1375,12 @@ func (r *c11Run) runCase(c *c11Case, rng *RNG) {
 			ex = x
 		}
 		realG[n] = idOf(o, ex)
+		if realG[n] < 0 && c.style == "A" {
+			// not what the model expects under this name: is it the DEFAULT object of the name?
+			if x, ok := r.refGlob[n]; ok {
+				realG[n] = idOf(o, x)
+			}
+		}
 	}
 	mismatch := false
 	if d := c11DiffTables("globals", realG, rp.globals); len(d) > 0 {
@@ -1164,6 +1415,40 @@ func (r *c11Run) runCase(c *c11Case, rng *RNG) {
 			mismatch = true
 			e.R.Mismatch(key, strings.Join(d[:min(len(d), 6)], "; "), "Impl.initCfg module table", "Module.builtins after init")
 		}
+		// Builtin.module is immutable in the model (`back`): the __module__ of every member
+		// builtin still is the module object it had when the environment was built — also
+		// after further Configs were built
+		for _, name := range sortedKeys(t) {
+			bid := t[name]
+			want, has := en.back[bid]
+			if bid <= 0 || !has {
+				continue
+			}
+			ro, ok := c11GetAttr(realMods[id], name)
+			b, isB := ro.(*object.Builtin)
+			if !ok || !isB {
+				continue
+			}
+			mv, ok := c11GetAttr(b, "__module__")
+			if !ok {
+				continue
+			}
+			var wantObj object.Object
+			if want == c11NilID {
+				wantObj = object.Nil
+			} else if m, ok := realMods[want]; ok {
+				wantObj = m
+			}
+			if wantObj != nil && !c11Same(mv, wantObj) {
+				mismatch = true
+				e.R.Mismatch(key, fmt.Sprintf("%s.%s.__module__ is another object than module#%d of this Config (%s)", realMods[id].Name().Value(), name, want, mv.Inspect()),
+					fmt.Sprintf("module#%d", want), "Builtin.module back-pointer after init and after later Configs were built")
+				break
+			}
+		}
+	}
+	if c.seq != nil {
+		r.seqSpec(c, key, real, realG)
 	}
 
 	// ---- the real graph, reachability decided by Lean
@@ -1319,7 +1604,7 @@ func (r *c11Run) runCase(c *c11Case, rng *RNG) {
 		}
 		var res object.Object
 		var err error
-		if c.style == "A" && !sharedState {
+		if c.style == "A" && !sharedState && c.later == 0 {
 			res, err = r.eval(src, nil, opts) // risor.Eval: a fresh Config from the same options
 		} else {
 			res, err = r.eval(src, cfg, nil)
@@ -1514,6 +1799,11 @@ func c11ThroughValue(c *c11Case, a *c11Access) bool {
 			return true
 		}
 	}
+	// … or a host global that is a plain value (WithGlobal("strings", "text"): `strings.to_upper`
+	// is a method of the string)
+	if v, ok := c.host[a.first]; ok && !c11IdentityKind(v) && len(a.attrs) > 0 {
+		return true
+	}
 	return false
 }
 
@@ -1667,7 +1957,13 @@ func c11_runC11(e *Env) {
 		"(all of them in the thorough tier, a seeded sample in the quick tier), seeded subsets of mixed denies/overrides, WithoutDefaultGlobals " +
 		"configurations and random trees of nested host modules with dotted names of depth 1-5; for each case the real object graph is walked by " +
 		"identity and 15-40 access scripts are evaluated; non-trivial when at least one denied/overridden name resolves to an object in the " +
-		"unedited configuration; distinct by the canonical text of the case"
+		"unedited configuration; distinct by the canonical text of the case. " +
+		"Option SEQUENCES: every word of length 2-3 over {WithGlobal(s), WithoutGlobal(s), WithGlobalOverride} on one name (default top-level names, a host " +
+		"name), words over edits of a module and one of its members, random sequences of 2-7 options (incl. WithoutDefaultGlobals, dotted and odd names) " +
+		"over pools of 1-4 names; the Lean model folds the sequence itself and Risor.C11.allowedTop judges the real final binding of every top-level name. " +
+		"LATER configurations: 0-2 further Configs are built after the edited one and before its graph is walked and its scripts run. " +
+		"REUSED VM: 2-4 configurations (directed pairs without new names, random sequences over one pool), 10-28 access scripts evaluated one after the other " +
+		"on one VM under alternating configurations (Config object and risor.Eval+WithVM); non-trivial when some evaluation succeeds"
 	r := &c11Run{e: e}
 	// the attribute-name universe regenerated from /repo on this run, through the oracle
 	u := e.O.Ask("C11", "universe")
@@ -1778,10 +2074,10 @@ func c11_runC11(e *Env) {
 		st := styles[i%2]
 		if !e.Quick {
 			for _, s := range styles {
-				r.runCase(&c11Case{style: s, denies: []string{n}, kind: "single deny (default name)", plural: rng.Bool()}, rng.Fork())
+				r.runCase(&c11Case{style: s, denies: []string{n}, kind: "single deny (default name)", plural: rng.Bool(), later: c11Later(rng, n)}, rng.Fork())
 			}
 		} else {
-			r.runCase(&c11Case{style: st, denies: []string{n}, kind: "single deny (default name)", plural: rng.Bool()}, rng.Fork())
+			r.runCase(&c11Case{style: st, denies: []string{n}, kind: "single deny (default name)", plural: rng.Bool(), later: c11Later(rng, n)}, rng.Fork())
 		}
 	}
 	ovNames := names
@@ -1796,7 +2092,7 @@ func c11_runC11(e *Env) {
 			sts = styles
 		}
 		for _, s := range sts {
-			r.runCase(&c11Case{style: s, ovs: []c11Ov{{n, c11OvValue(rng, i)}}, kind: "single override (default name)"}, rng.Fork())
+			r.runCase(&c11Case{style: s, ovs: []c11Ov{{n, c11OvValue(rng, i)}}, kind: "single override (default name)", later: c11Later(rng, n)}, rng.Fork())
 		}
 	}
 
@@ -1806,7 +2102,7 @@ func c11_runC11(e *Env) {
 		nSub = 3000
 	}
 	for i := 0; i < nSub; i++ {
-		c := &c11Case{style: styles[i%2], kind: "subset (default names)", plural: rng.Bool()}
+		c := &c11Case{style: styles[i%2], kind: "subset (default names)", plural: rng.Bool(), later: rng.Intn(3)}
 		k := 2 + rng.Intn(6)
 		used := map[string]bool{}
 		for j := 0; j < k; j++ {
@@ -1869,6 +2165,14 @@ func c11_runC11(e *Env) {
 		r.runCase(c, rng.Fork())
 	}
 
+	// 5. SEQUENCES of options: every word over {WithGlobal, WithoutGlobal, WithGlobalOverride} of
+	// length 2 and 3 on one name (default top-level names, a host name), words of length 2 over
+	// member/module edits, and random sequences over small pools of names
+	r.runSequences(rng.Fork(), topNames, memberNames)
+
+	// 6. evaluations on ONE reused VM under differing configurations
+	r.runReuses(rng.Fork(), topNames, memberNames)
+
 	// 4. WithoutDefaultGlobals with nothing / with explicit defaults and no edits
 	r.runCase(&c11Case{style: "W", kind: "empty"}, rng.Fork())
 	r.runCase(&c11Case{style: "B", kind: "defaults, no edits"}, rng.Fork())
@@ -1882,4 +2186,710 @@ func c11_mergeHist(m map[string]int, k string, n int) map[string]int {
 	}
 	m[k] += n
 	return m
+}
+
+// ---------------------------------------------------------------- option sequences: Spec on the real result
+
+// seqSpec evaluates Risor.C11.allowedTop on the REAL final binding of every top-level name the
+// sequence mentions.
+func (r *c11Run) seqSpec(c *c11Case, key string, real map[string]any, realG map[string]int) {
+	e := r.e
+	seen := map[string]bool{}
+	var names []string
+	for _, o := range c.seq {
+		if o.kind != 'n' && !strings.Contains(o.name, ".") && !seen[o.name] {
+			seen[o.name] = true
+			names = append(names, o.name)
+		}
+	}
+	if len(names) == 0 {
+		return
+	}
+	sort.Strings(names)
+	ids := r.seqIDs(c)
+	bs := make([]string, len(names))
+	desc := make([]string, len(names))
+	for i, n := range names {
+		v, ok := real[n]
+		switch {
+		case !ok:
+			bs[i], desc[i] = "n", "unbound"
+		default:
+			id := realG[n]
+			desc[i] = fmt.Sprintf("object #%d", id)
+			if id < 0 {
+				id = 900000 + i // an object that is none of the host's and not the default of the name
+				desc[i] = "an object the host never supplied"
+			} else if c.style == "A" && r.isRefID(id) {
+				desc[i] = fmt.Sprintf("the DEFAULT object of %q", n)
+			}
+			if o, isObj := v.(object.Object); isObj {
+				desc[i] += " (" + o.Inspect() + ")"
+			}
+			bs[i] = strconv.Itoa(id)
+		}
+		bs[i] = c11Name(n) + "=" + bs[i]
+	}
+	rep := e.O.Ask("C11", "optspec", c11SeqEncode(c.seq, ids), strings.Join(bs, ","))
+	f := strings.Split(rep, "\t")
+	if len(f) != 2 || f[0] != "ok" {
+		e.R.Mismatch(key, "-", rep[:min(len(rep), 200)], "oracle rejected the optspec request")
+		return
+	}
+	items := strings.Split(f[1], ",")
+	for i, it := range items {
+		if i >= len(names) {
+			break
+		}
+		g := strings.Split(it, ":")
+		if len(g) != 5 {
+			continue
+		}
+		state := "neither denied nor overridden"
+		if g[1] != "n" {
+			state = "override in force"
+		} else if g[2] == "1" {
+			state = "denied"
+		}
+		if g[0] == "1" {
+			e.R.H("optseq_spec", state+": binding allowed")
+			continue
+		}
+		e.R.H("optseq_spec", state+": binding NOT allowed")
+		e.R.Spec(key, fmt.Sprintf("after the option sequence the top-level name %q is bound to %s; the sequence allows: override in force = %s, denied = %s, host value supplied after the last denial = %s (n = none)",
+			names[i], desc[i], g[1], g[2], g[3]), "")
+	}
+}
+
+// seqIDs: the identity table the case's option values were numbered in (set by runCase).
+func (r *c11Run) seqIDs(c *c11Case) *c11Ids { return r.curIDs }
+
+func c11LaterOpts(rng *RNG, i int) []risor.Option {
+	switch rng.Intn(5) {
+	case 0:
+		return []risor.Option{risor.WithoutGlobal("os.exit")}
+	case 1:
+		return []risor.Option{risor.WithGlobalOverride("os.getenv", c11Noop("later_getenv"))}
+	case 2:
+		return []risor.Option{risor.WithoutGlobals("math", "strings.contains")}
+	case 3:
+		return []risor.Option{risor.WithGlobal("zz_later"+strconv.Itoa(i), c11Noop("zz_later"))}
+	}
+	return []risor.Option{risor.WithGlobals(map[string]any{})}
+}
+
+// ---------------------------------------------------------------- evaluations on one reused VM
+
+type c11Eval struct {
+	k       int // index of the configuration
+	a       *c11Access
+	src     string
+	lastDot bool
+	viaEval bool // through risor.Eval(src, opts_k..., WithVM(vm)): a fresh Config from the same options
+}
+
+// runReuse builds the configurations `seqs` (each from its option sequence), numbers all their
+// objects by identity, and evaluates generated access scripts one after the other on ONE
+// virtual machine, each under one of the configurations.  Every evaluation is compared with
+// Risor.C11.vmEval (Impl) and with what the evaluation's own configuration alone determines
+// (Spec: Risor.C11.access on its globals).
+func (r *c11Run) runReuse(seqs [][]c11Opt, rng *RNG, kind string) {
+	e := r.e
+	r.nCases++
+	ctx := context.Background()
+	universe := r.universeFor(&c11Case{})
+	ids := c11_newC11Ids()
+	K := len(seqs)
+	cfgs := make([]*risor.Config, K)
+	opts := make([][]risor.Option, K)
+	globs := make([]map[string]any, K)
+	tables := make([]map[string]int, K)
+	shared := make([]bool, K) // the options carry module objects that init edits in place
+	for k, seq := range seqs {
+		opts[k] = c11SeqOptions(seq)
+		cfgs[k] = risor.NewConfig(opts[k]...)
+		globs[k] = cfgs[k].Globals()
+		for _, o := range seq {
+			if _, isMod := o.val.(*object.Module); isMod {
+				shared[k] = true
+			}
+		}
+	}
+	for k := range seqs {
+		w := c11_newC11Walker(ids, universe)
+		w.walk(globs[k], nil)
+	}
+	en := &c11Env{ids: ids, universe: universe}
+	en.snapshot()
+	if len(en.missing) > 0 {
+		e.R.Mismatch("reuse", strings.Join(en.missing[:min(len(en.missing), 8)], ","), "every module attribute key is in the regenerated universe", "attribute-name universe is incomplete")
+	}
+	nameSet := map[string]bool{}
+	for k := range seqs {
+		tables[k] = map[string]int{}
+		for n, v := range globs[k] {
+			if o, ok := v.(object.Object); ok && o != nil {
+				if id, ok := ids.idOf(o); ok {
+					tables[k][n] = id
+					nameSet[n] = true
+				}
+			}
+		}
+	}
+	allNames := sortedKeys(nameSet)
+	// names the configurations treat differently (other object, absent, other member set)
+	var hot []string
+	for _, n := range allNames {
+		diff := false
+		for k := 1; k < K && !diff; k++ {
+			a, okA := tables[0][n]
+			b, okB := tables[k][n]
+			if okA != okB {
+				diff = true
+			} else if okA {
+				ta, ma := en.mods[a]
+				tb, mb := en.mods[b]
+				if ma != mb || (!ma && c11Fingerprint(ids.objs[a]) != c11Fingerprint(ids.objs[b])) {
+					diff = true
+				} else if ma && strings.Join(sortedKeys(ta), ",") != strings.Join(sortedKeys(tb), ",") {
+					diff = true
+				} else if ma {
+					for _, m := range sortedKeys(ta) {
+						if c11Fingerprint(ids.objs[ta[m]]) != c11Fingerprint(ids.objs[tb[m]]) {
+							diff = true
+						}
+					}
+				}
+			}
+		}
+		if diff {
+			hot = append(hot, n)
+		}
+	}
+	for _, seq := range seqs {
+		for _, o := range seq {
+			if o.kind != 'n' {
+				p := strings.Split(o.name, ".")[0]
+				if nameSet[p] && !c11Contains(hot, p) {
+					hot = append(hot, p)
+				}
+			}
+		}
+	}
+	getattrOK := make([]bool, K)
+	for k := range seqs {
+		if b, ok := globs[k]["getattr"].(*object.Builtin); ok && b.Key() == "getattr" {
+			getattrOK[k] = true
+		}
+	}
+	// ---- the evaluation plan
+	nEval := 10 + rng.Intn(8)
+	if !e.Quick {
+		nEval = 16 + rng.Intn(12)
+	}
+	var evals []c11Eval
+	k := 0
+	for len(evals) < nEval {
+		if len(evals) > 0 && rng.Chance(45) {
+			k = rng.Intn(K)
+		}
+		// the path is drawn from the skeleton of ANY of the configurations, so that members the
+		// evaluating configuration removed or replaced are probed
+		first := ""
+		if len(hot) > 0 && rng.Chance(70) {
+			first = Pick(rng, hot)
+		} else if len(allNames) > 0 {
+			first = Pick(rng, allNames)
+		} else {
+			first = "no_such_global_zz"
+		}
+		j := rng.Intn(K)
+		cur, ok := tables[j][first]
+		if !ok {
+			cur, ok = tables[k][first]
+		}
+		var attrs []string
+		for step := 0; ok && step < 4; step++ {
+			if t, isMod := en.mods[cur]; isMod {
+				ks := sortedKeys(t)
+				if len(ks) == 0 || rng.Chance(12) {
+					break
+				}
+				m := Pick(rng, ks)
+				attrs = append(attrs, m)
+				cur = t[m]
+			} else if m, isB := en.back[cur]; isB && m != c11NilID {
+				if rng.Chance(55) {
+					break
+				}
+				attrs = append(attrs, "__module__")
+				cur = m
+			} else {
+				break
+			}
+		}
+		isMod := false
+		for q := 0; q < K; q++ {
+			if id, ok := tables[q][first]; ok {
+				if _, m := en.mods[id]; m {
+					isMod = true
+				}
+			}
+		}
+		a := &c11Access{imp: isMod && rng.Chance(25), first: first, attrs: attrs, syntax: make([]bool, len(attrs)), ovIdx: -1}
+		for i := range a.syntax {
+			a.syntax[i] = rng.Bool()
+		}
+		if a.imp {
+			a.from = rng.Chance(35)
+			a.alias = rng.Chance(30)
+		}
+		src, spellable, lastDot := a.script(getattrOK[k])
+		if !spellable {
+			e.R.H("reuse_eval", "unspellable")
+			nEval--
+			continue
+		}
+		evals = append(evals, c11Eval{k: k, a: a, src: src, lastDot: lastDot, viaEval: !shared[k] && rng.Chance(25)})
+	}
+	// the exact names a configuration denies or overrides, probed under that configuration in a
+	// later run (direct path, and through a sibling's __module__ when the skeleton has one)
+	for k, seq := range seqs {
+		for _, o := range seq {
+			if o.kind != 'd' && o.kind != 'o' {
+				continue
+			}
+			parts := strings.Split(o.name, ".")
+			cands := []*c11Access{{first: parts[0], attrs: parts[1:], syntax: make([]bool, len(parts)-1), ovIdx: -1}}
+			if len(parts) == 2 {
+				for q := 0; q < K; q++ {
+					if t, ok := en.mods[tables[q][parts[0]]]; ok {
+						for _, sib := range sortedKeys(t) {
+							if _, isB := en.back[t[sib]]; isB && sib != parts[1] {
+								cands = append(cands, &c11Access{first: parts[0], attrs: []string{sib, "__module__", parts[1]}, syntax: []bool{false, rng.Bool(), rng.Bool()}, ovIdx: -1})
+								break
+							}
+						}
+						break
+					}
+				}
+			}
+			for _, a := range cands {
+				if src, ok, lastDot := a.script(getattrOK[k]); ok {
+					evals = append(evals, c11Eval{k: k, a: a, src: src, lastDot: lastDot, viaEval: !shared[k] && rng.Chance(25)})
+				}
+			}
+		}
+	}
+	descs := make([]string, K)
+	for k, seq := range seqs {
+		descs[k] = fmt.Sprintf("cfg%d=%s", k, c11SeqText(seq))
+	}
+	var plan []string
+	for _, ev := range evals {
+		how := ""
+		if ev.viaEval {
+			how = "Eval:"
+		}
+		plan = append(plan, fmt.Sprintf("%s%d:%s", how, ev.k, strconv.Quote(ev.src)))
+	}
+	key := "one VM; " + strings.Join(descs, " ") + " evaluations=[" + strings.Join(plan, " ") + "]"
+	e.R.H("kind", kind)
+	e.R.H("reuse_configs", strconv.Itoa(K))
+	// ---- the model
+	tabs := make([]string, K)
+	for k := range seqs {
+		tabs[k] = c11Table(tables[k])
+	}
+	evs := make([]string, len(evals))
+	for i, ev := range evals {
+		evs[i] = strconv.Itoa(ev.k) + "~" + ev.a.encode()
+	}
+	if len(evs) == 0 {
+		e.R.Case(key, false)
+		return
+	}
+	rep := e.O.Ask("C11", "vmseq", en.encodeMods(), en.encodeBack(), strings.Join(tabs, "/"), strings.Join(evs, ","))
+	f := strings.Split(rep, "\t")
+	var outs []string
+	if len(f) == 2 && f[0] == "ok" {
+		outs = strings.Split(f[1], ",")
+	}
+	if len(outs) != len(evals) {
+		e.R.Mismatch(key, "-", rep[:min(len(rep), 200)], "oracle rejected the vmseq request")
+		e.R.Case(key, false)
+		return
+	}
+	// ---- the real VM
+	machine, err := vm.NewEmpty()
+	if err != nil {
+		e.R.Mismatch(key, err.Error(), "a VM", "vm.NewEmpty")
+		return
+	}
+	nontrivial := false
+	owner := func(id int) string {
+		var in []string
+		for q := 0; q < K; q++ {
+			for n, x := range tables[q] {
+				if x == id {
+					in = append(in, fmt.Sprintf("cfg%d.%s", q, n))
+				}
+				if t, ok := en.mods[x]; ok {
+					for m, y := range t {
+						if y == id {
+							in = append(in, fmt.Sprintf("cfg%d.%s.%s", q, n, m))
+						}
+					}
+				}
+			}
+		}
+		sort.Strings(in)
+		if len(in) > 4 {
+			in = in[:4]
+		}
+		return strings.Join(in, ",")
+	}
+	for i, ev := range evals {
+		io := strings.Split(outs[i], ":")
+		if len(io) != 2 {
+			continue
+		}
+		impl, spec := io[0], io[1]
+		var res object.Object
+		var rerr error
+		func() {
+			defer func() {
+				if p := recover(); p != nil {
+					res, rerr = nil, fmt.Errorf("PANIC: %v", p)
+				}
+			}()
+			if ev.viaEval {
+				res, rerr = risor.Eval(ctx, ev.src, append(append([]risor.Option{}, opts[ev.k]...), risor.WithVM(machine))...)
+				return
+			}
+			// the steps of risor.Eval with WithVM, on the Config object whose objects are numbered
+			prog, err := parser.Parse(ctx, ev.src)
+			if err != nil {
+				rerr = err
+				return
+			}
+			code, err := compiler.Compile(prog, cfgs[ev.k].CompilerOpts()...)
+			if err != nil {
+				rerr = err
+				return
+			}
+			res, rerr = vm.RunCodeOnVM(ctx, machine, code, cfgs[ev.k].VMOpts()...)
+		}()
+		got := "n"
+		known := false
+		switch {
+		case rerr != nil:
+			if strings.HasPrefix(rerr.Error(), "PANIC") {
+				got = "panic"
+			}
+		case res == nil:
+			got = "nil-result"
+		default:
+			if id, ok := ids.idOf(res); ok {
+				got, known = strconv.Itoa(id), true
+			} else {
+				got = "other"
+			}
+		}
+		cls := "ident"
+		if ev.a.imp {
+			cls = "import"
+		}
+		if i == 0 {
+			cls += " (first run)"
+		} else {
+			cls += " (later run)"
+		}
+		if got == "n" {
+			e.R.H("reuse_eval", cls+" → fails")
+		} else {
+			e.R.H("reuse_eval", cls+" → ok")
+			nontrivial = true
+		}
+		caseTxt := fmt.Sprintf("%s AT evaluation #%d", key, i)
+		// x.name on a dynamic attribute pushes a resolved (fresh) value
+		resolver := false
+		if impl != "n" && ev.lastDot && len(ev.a.attrs) > 0 {
+			if mid, _ := strconv.Atoi(impl); mid < len(ids.objs) {
+				var rs object.AttrResolver
+				rs, resolver = ids.objs[mid].(object.AttrResolver)
+				if resolver {
+					// the attribute object caches its resolved value: that is what the script gets
+					if rv, err := c11Resolve(ctx, rs, ev.a.attrs[len(ev.a.attrs)-1]); err == nil && rv != nil {
+						if id, ok := ids.idOf(rv); ok {
+							if spec == impl {
+								spec = strconv.Itoa(id)
+							}
+							impl = strconv.Itoa(id)
+							resolver = false
+						}
+					}
+				}
+			}
+		}
+		bad := false
+		switch {
+		case got == "panic" || got == "nil-result":
+			bad = true
+		case ev.viaEval:
+			// a fresh Config from the same options: only success/failure is comparable, and an
+			// object of one of the numbered configurations must never appear
+			bad = (impl != "n" && got == "n") || (known && got != impl)
+		case impl == "n":
+			bad = known // an object outside every configuration's graph (method of a value replacement) is not modelled
+		case resolver:
+			bad = got == "n"
+		default:
+			bad = got != impl
+		}
+		if bad {
+			detail := ""
+			if rerr != nil {
+				detail = " err=" + rerr.Error()
+			}
+			if known {
+				detail += " (that object is " + owner(c11Atoi(got)) + ")"
+			}
+			e.R.Mismatch(caseTxt, got+detail, impl, "result of an evaluation on a reused VM (ids; n = fails)")
+		}
+		// Spec: whatever ran before on this VM, the evaluation obtains nothing but what its own
+		// configuration holds under the path
+		if known && got != spec && !resolver {
+			if ev.viaEval {
+				e.R.Spec(caseTxt, fmt.Sprintf("evaluation #%d (fresh Config from the options of cfg%d) obtained %s, an object of an EARLIER configuration (%s)",
+					i, ev.k, res.Inspect(), owner(c11Atoi(got))), "")
+			} else {
+				e.R.Spec(caseTxt, fmt.Sprintf("evaluation #%d under cfg%d obtained object #%s %s (%s); its own configuration gives #%s for this path (n = nothing)",
+					i, ev.k, got, res.Inspect(), owner(c11Atoi(got)), spec), "")
+			}
+		}
+	}
+	runtime.KeepAlive(cfgs)
+	e.R.Case(key, nontrivial && K >= 2)
+}
+
+func c11Atoi(s string) int { n, _ := strconv.Atoi(s); return n }
+
+// ---------------------------------------------------------------- generators for sequences
+
+func c11SeqVal(rng *RNG, name string, i int) object.Object {
+	if strings.HasPrefix(name, "hostmod") && !strings.Contains(name, ".") {
+		return object.NewBuiltinsModule(name, map[string]object.Object{"f": c11Noop("f"), "g": c11Noop("g")})
+	}
+	return c11OvValue(rng, i)
+}
+
+// c11Word turns a word over {G, D, O} into options on one name.
+func c11Word(rng *RNG, word string, name string) []c11Opt {
+	var seq []c11Opt
+	for i, ch := range word {
+		switch ch {
+		case 'G':
+			seq = append(seq, c11Opt{kind: 'g', name: name, val: c11SeqVal(rng, name, i), plural: rng.Bool()})
+		case 'D':
+			seq = append(seq, c11Opt{kind: 'd', name: name, plural: rng.Bool()})
+		case 'O':
+			seq = append(seq, c11Opt{kind: 'o', name: name, val: c11SeqVal(rng, name, i)})
+		}
+	}
+	return seq
+}
+
+func c11Words(alphabet string, n int) []string {
+	if n == 0 {
+		return []string{""}
+	}
+	var out []string
+	for _, w := range c11Words(alphabet, n-1) {
+		for _, ch := range alphabet {
+			out = append(out, w+string(ch))
+		}
+	}
+	return out
+}
+
+// c11GenSeq: a random sequence over a small pool of names (so that the same name is supplied,
+// denied and overridden several times in one sequence).
+func c11GenSeq(rng *RNG, pool []string, n int, allowNoDefaults bool) []c11Opt {
+	var seq []c11Opt
+	for i := 0; i < n; i++ {
+		name := Pick(rng, pool)
+		switch x := rng.Intn(100); {
+		case x < 36:
+			seq = append(seq, c11Opt{kind: 'd', name: name, plural: rng.Chance(40)})
+		case x < 68:
+			seq = append(seq, c11Opt{kind: 'g', name: name, val: c11SeqVal(rng, name, i), plural: rng.Chance(40)})
+		case x < 95 || !allowNoDefaults:
+			seq = append(seq, c11Opt{kind: 'o', name: name, val: c11SeqVal(rng, name, i)})
+		default:
+			seq = append(seq, c11Opt{kind: 'n'})
+		}
+	}
+	return seq
+}
+
+// c11Later: how many further Configs are built after the edited one (module members: always at
+// least one, so that back-references are walked with another configuration's objects alive).
+func c11Later(rng *RNG, name string) int {
+	if strings.Contains(name, ".") {
+		return 1 + rng.Intn(2)
+	}
+	return rng.Intn(3)
+}
+
+func (r *c11Run) runSequences(rng *RNG, topNames, memberNames []string) {
+	e := r.e
+	// a. all words of length 2 and 3 on one top-level name
+	tops := []string{"exec", "os", "len", "hostmod_a"}
+	if e.Quick {
+		tops = append(tops, Pick(rng, topNames))
+	} else {
+		tops = append(tops, topNames...)
+	}
+	words := append(c11Words("GDO", 2), c11Words("GDO", 3)...)
+	for ti, name := range tops {
+		ws := words
+		if !e.Quick && ti >= 12 {
+			ws = c11Words("GDO", 2)
+		}
+		for _, w := range ws {
+			r.runCase(&c11Case{seq: c11Word(rng, w, name), kind: "option sequence: word on one top-level name", later: rng.Intn(2)}, rng.Fork())
+		}
+	}
+	// b. words of length 2 and 3 over edits of a module and one of its members
+	type mm struct{ mod, member string }
+	pairs := []mm{{"os", "os.exit"}, {"hostmod_a", "hostmod_a.f"}}
+	for i := 0; i < 2; i++ {
+		m := Pick(rng, memberNames)
+		pairs = append(pairs, mm{strings.SplitN(m, ".", 2)[0], m})
+	}
+	for _, p := range pairs {
+		for _, w := range append(c11Words("dogDO", 2), c11Words("dogDO", 3)...) {
+			if e.Quick && len(w) == 3 && !rng.Chance(25) {
+				continue
+			}
+			var seq []c11Opt
+			if strings.HasPrefix(p.mod, "hostmod") {
+				seq = append(seq, c11Opt{kind: 'g', name: p.mod, val: c11SeqVal(rng, p.mod, 0)})
+			}
+			for i, ch := range w {
+				switch ch {
+				case 'd':
+					seq = append(seq, c11Opt{kind: 'd', name: p.member, plural: rng.Bool()})
+				case 'o':
+					seq = append(seq, c11Opt{kind: 'o', name: p.member, val: c11Noop("replacement" + strconv.Itoa(i))})
+				case 'g':
+					seq = append(seq, c11Opt{kind: 'g', name: p.member, val: c11Noop("rawkey" + strconv.Itoa(i)), plural: rng.Bool()})
+				case 'D':
+					seq = append(seq, c11Opt{kind: 'd', name: p.mod, plural: rng.Bool()})
+				case 'O':
+					seq = append(seq, c11Opt{kind: 'o', name: p.mod, val: c11SeqVal(rng, "hostmod_r", i)})
+				}
+			}
+			r.runCase(&c11Case{seq: seq, kind: "option sequence: word on a module and its member", later: rng.Intn(2)}, rng.Fork())
+		}
+	}
+	// c. random sequences over small pools
+	n := 140
+	if !e.Quick {
+		n = 3000
+	}
+	odd := []string{"nosuch", "os.nosuch", "nosuch.exit", "os.exit.more", "len.x", "os.", ".os", "hostmod_a.f", "hostmod_a.g", "hostmod_b", "zz_host"}
+	for i := 0; i < n; i++ {
+		var pool []string
+		for j := 0; j < 1+rng.Intn(3); j++ {
+			switch rng.Intn(4) {
+			case 0:
+				pool = append(pool, Pick(rng, topNames))
+			case 1:
+				m := Pick(rng, memberNames)
+				pool = append(pool, m)
+				if rng.Bool() {
+					pool = append(pool, strings.SplitN(m, ".", 2)[0])
+				}
+			case 2:
+				pool = append(pool, Pick(rng, odd))
+			default:
+				pool = append(pool, Pick(rng, []string{"exec", "os", "os.exit", "os.getenv", "getenv", "open", "http", "hostmod_a"}))
+			}
+		}
+		seq := c11GenSeq(rng, pool, 2+rng.Intn(6), true)
+		r.runCase(&c11Case{seq: seq, kind: "option sequence: random", later: rng.Intn(2)}, rng.Fork())
+	}
+}
+
+func (r *c11Run) runReuses(rng *RNG, topNames, memberNames []string) {
+	e := r.e
+	mk := func(ops ...string) []c11Opt { // "d:name" "o:name" "g:name" "n"
+		seq := []c11Opt{}
+		for i, s := range ops {
+			if s == "n" {
+				seq = append(seq, c11Opt{kind: 'n'})
+				continue
+			}
+			seq = append(seq, c11Opt{kind: s[0], name: s[2:]})
+			if s[0] != 'd' {
+				seq[len(seq)-1].val = c11SeqVal(rng, s[2:], i)
+			}
+		}
+		return seq
+	}
+	// a. directed: a first configuration, then one with no new names but other objects
+	directed := [][][]string{
+		{{}, {"d:os.getenv"}},
+		{{}, {"o:os.getenv"}},
+		{{}, {"o:getenv"}},
+		{{}, {"d:os.exit"}, {}},
+		{{"d:os.exit"}, {}},
+		{{}, {"d:os"}},
+		{{"d:os"}, {}},
+		{{"o:os"}, {}, {"o:os"}},
+		{{}, {"g:zz_host"}, {}},
+		{{"g:hostmod_a"}, {"g:hostmod_a", "d:hostmod_a.f"}},
+		{{"n", "g:hostmod_a"}, {"n", "g:hostmod_a", "o:hostmod_a.f"}, {}},
+		{{"d:math.abs", "d:strings"}, {"d:strings.contains"}, {"o:math.abs"}},
+	}
+	for _, d := range directed {
+		reps := 1
+		if !e.Quick {
+			reps = 4
+		}
+		for q := 0; q < reps; q++ {
+			var seqs [][]c11Opt
+			for _, ops := range d {
+				seqs = append(seqs, mk(ops...))
+			}
+			r.runReuse(seqs, rng.Fork(), "reused VM: directed")
+		}
+	}
+	// b. random: 2-4 configurations over one small pool of names
+	n := 45
+	if !e.Quick {
+		n = 900
+	}
+	for i := 0; i < n; i++ {
+		var pool []string
+		for j := 0; j < 2+rng.Intn(2); j++ {
+			switch rng.Intn(3) {
+			case 0:
+				pool = append(pool, Pick(rng, topNames))
+			case 1:
+				m := Pick(rng, memberNames)
+				pool = append(pool, m)
+			default:
+				pool = append(pool, Pick(rng, []string{"os", "os.exit", "os.getenv", "getenv", "exec", "hostmod_a", "hostmod_a.f", "zz_host"}))
+			}
+		}
+		K := 2 + rng.Intn(3)
+		var seqs [][]c11Opt
+		for k := 0; k < K; k++ {
+			seqs = append(seqs, c11GenSeq(rng, pool, rng.Intn(4), rng.Chance(10)))
+		}
+		r.runReuse(seqs, rng.Fork(), "reused VM: random")
+	}
 }
